@@ -24,7 +24,7 @@ ITEMS = [
     ('$\\ua$', []),
     ('\\begin{equation}\\ub = \\uc\\end{equation}', []),
     ('$x\\text{ \\ua }$', [('use-if', 'amsmath', '\\ua')]),
-    ('$\\begin{ux}y\\end{ux}$', []),
+    ('$\\begin{uy}y\\end{uy}$', []),
     ('% \\ua\n', []),
     ('%%% LT-SKIP-BEGIN\n\\ub\n%%% LT-SKIP-END\n', []),
     ('\\LTskip{\\ua}', []),
@@ -44,7 +44,9 @@ ITEMS = [
     ('\\newtheorem{ux}{Thm}', [('def', 'ux', [])]),
     ('\\renewcommand{\\ub}[1]{#1\\uc}', [('def', '\\ub', [('use', '\\uc')])]),
 ]
-PACKS = {'': set(), '*': {'xcolor', 'amsthm', 'glossaries', 'amsmath'}, 'xcolor': {'xcolor'}, 'amsthm,amsmath': {'amsthm', 'amsmath'}}
+PACKS = {'': set(), '*': {'xcolor', 'amsthm', 'glossaries', 'amsmath'}, 'xcolor': {'xcolor'}, 'amsthm,amsmath': {'amsthm', 'amsmath'},
+         'xcolor,': {'xcolor'}, 'amsthm,,amsmath': {'amsthm', 'amsmath'}, 'cleveref,*': {'xcolor', 'amsthm', 'glossaries', 'amsmath'},
+         '*,cleveref': {'xcolor', 'amsthm', 'glossaries', 'amsmath'}}
 
 
 def model(seq, pack):
